@@ -77,28 +77,36 @@ def fcbo(model, R, key, S_):
                 f'{ctx}.shape.{AXIS_OF[S_]}', src(cnt), extra={'consequence': 'indexed by positions of the enumerated axis: another size raises IndexError or wastes slots'})
     else:
         R.unknown(rule, func, init[0], f'{tag}: failed-set table', found)
-    # atom enumeration
+    # atom enumeration: ``j_atom = list(enumerate(Cls.supremum.atoms()))``  or  ``atoms = list(Cls.supremum.atoms())`` (indexed by range)
     ja = None
+    atoms_list = None
     for s in func.body:
         if isinstance(s, ast.Assign) and isinstance(s.targets[0], ast.Name) and 'enumerate' in src(s.value):
             ja = s
-    if ja is None:
-        raise Unrecognised('j_atom enumeration', func=func, node=func.node)
-    v = X(ja.value)
-    inner = v.args[0] if isinstance(v, ast.Call) and name_is(v.func, 'list') and v.args else v
-    filtered = isinstance(inner, (ast.ListComp, ast.GeneratorExp)) and any(g.ifs for g in inner.generators) and 'enumerate' in src(inner)
-    if filtered:
-        # the inner loop resumes with j_atom[k:], where k is a *position of the axis*: that needs j_atom[i] == (i, atom_i)
-        R.bad(rule, func, ja, f'{tag}: positions and atoms of the enumerated axis', f'the full enumerate({ctx}.{CLS[S_]}.supremum.atoms())',
-              src(inner)[:120], extra={'consequence': 'a filtered list is sliced by axis position: after a dropped entry every resume point is shifted '
-                                                      'and candidates are skipped'})
-    else:
-        ok = (isinstance(inner, ast.Call) and name_is(inner.func, 'enumerate') and len(inner.args) == 1)
-        if ok:
-            R.expr(X(inner.args[0]), f'{ctx}.{CLS[S_]}.supremum.atoms()', rule, func, f'{tag}: positions and atoms of the enumerated axis', at=ja)
+        elif isinstance(s, ast.Assign) and isinstance(s.targets[0], ast.Name) and src(X(s.value)).replace('list(', '').replace('tuple(', '').rstrip(')') + ')' \
+                == f'{ctx}.{CLS[S_]}.supremum.atoms()' and 'enumerate' not in src(s.value):
+            atoms_list = s
+    if ja is None and atoms_list is None:
+        raise Unrecognised('enumeration of the atoms of the enumerated axis', func=func, node=func.node)
+    if ja is not None:
+        v = X(ja.value)
+        inner = v.args[0] if isinstance(v, ast.Call) and name_is(v.func, 'list') and v.args else v
+        filtered = isinstance(inner, (ast.ListComp, ast.GeneratorExp)) and any(g.ifs for g in inner.generators) and 'enumerate' in src(inner)
+        if filtered:
+            # the inner loop resumes with j_atom[k:], where k is a *position of the axis*: that needs j_atom[i] == (i, atom_i)
+            R.bad(rule, func, ja, f'{tag}: positions and atoms of the enumerated axis', f'the full enumerate({ctx}.{CLS[S_]}.supremum.atoms())',
+                  src(inner)[:120], extra={'consequence': 'a filtered list is sliced by axis position: after a dropped entry every resume point is shifted '
+                                                          'and candidates are skipped'})
         else:
-            R.unknown(rule, func, ja, f'{tag}: positions and atoms of the enumerated axis', src(inner)[:100])
-    ja_name = ja.targets[0].id
+            ok = (isinstance(inner, ast.Call) and name_is(inner.func, 'enumerate') and len(inner.args) == 1)
+            if ok:
+                R.expr(X(inner.args[0]), f'{ctx}.{CLS[S_]}.supremum.atoms()', rule, func, f'{tag}: positions and atoms of the enumerated axis', at=ja)
+            else:
+                R.unknown(rule, func, ja, f'{tag}: positions and atoms of the enumerated axis', src(inner)[:100])
+        ja_name = ja.targets[0].id
+    else:
+        ja_name = atoms_list.targets[0].id
+        R.ok(rule, func, atoms_list, f'{tag}: positions and atoms of the enumerated axis', found=src(atoms_list.value))
     # pop + yield
     body = loop.body
     pops = [s for s in body if isinstance(s, ast.Assign) and isinstance(s.value, ast.Call) and chain(s.value.func) == [stack, 'pop']]
@@ -156,13 +164,27 @@ def fcbo(model, R, key, S_):
     f = fors[0]
     it = f.iter
     inner = it.args[0] if isinstance(it, ast.Call) and name_is(it.func, 'reversed') and it.args else it
-    ok = (isinstance(inner, ast.Subscript) and name_is(inner.value, ja_name) and isinstance(inner.slice, ast.Slice)
-          and name_is(inner.slice.lower, kvar) and inner.slice.upper is None and inner.slice.step is None
-          and isinstance(f.target, ast.Tuple) and len(f.target.elts) == 2)
-    R.check(ok, rule, func, f, f'{tag}: inner loop over the positions >= the popped index', f'for j, atom in reversed({ja_name}[{kvar}:])', src(it))
-    if not (isinstance(f.target, ast.Tuple) and len(f.target.elts) == 2):
-        return
-    j, atom = (t.id for t in f.target.elts)
+    if ja is not None:
+        ok = (isinstance(inner, ast.Subscript) and name_is(inner.value, ja_name) and isinstance(inner.slice, ast.Slice)
+              and name_is(inner.slice.lower, kvar) and inner.slice.upper is None and inner.slice.step is None
+              and isinstance(f.target, ast.Tuple) and len(f.target.elts) == 2)
+        R.check(ok, rule, func, f, f'{tag}: inner loop over the positions >= the popped index', f'for j, atom in reversed({ja_name}[{kvar}:])', src(it))
+        if not (isinstance(f.target, ast.Tuple) and len(f.target.elts) == 2):
+            return
+        j, atom = (t.id for t in f.target.elts)
+    else:
+        # for j in reversed(range(k, len(atoms))): atom = atoms[j]
+        ok = (isinstance(inner, ast.Call) and name_is(inner.func, 'range') and len(inner.args) == 2 and name_is(inner.args[0], kvar)
+              and src(inner.args[1]) in (f'len({ja_name})', src(tab.right) if isinstance(tab, ast.BinOp) else '') and isinstance(f.target, ast.Name))
+        R.check(ok, rule, func, f, f'{tag}: inner loop over the positions >= the popped index', f'for j in reversed(range({kvar}, len({ja_name})))', src(it))
+        if not ok:
+            return
+        j = f.target.id
+        binds = [s_ for s_ in f.body if isinstance(s_, ast.Assign) and isinstance(s_.targets[0], ast.Name) and isinstance(s_.value, ast.Subscript)
+                 and name_is(s_.value.value, ja_name) and name_is(s_.value.slice, j)]
+        if len(binds) != 1:
+            raise Unrecognised('atom looked up by position', func=func, node=f)
+        atom = binds[0].targets[0].id
     fenv = Env(f.body, params=[j, atom])
 
     def FX(n):
